@@ -88,6 +88,20 @@ func pairResizers() []pairResizer {
 				t.del(k)
 			}
 		}, final: shr},
+		// the same with nothing else in the table: while the writer's entry is not counted
+		// yet, the striped counter reads zero when the shrink decides what to copy
+		{name: "shrink-to-empty", base: 0, prep: func(t *pairTarget) {
+			for k := 1300; k < 1600; k++ {
+				t.store(k, mkVal(k, int64(k)))
+			}
+			for k := 1300; k < 1590; k++ {
+				t.del(k)
+			}
+		}, run: func(t *pairTarget) {
+			for k := 1590; k < 1600; k++ {
+				t.del(k)
+			}
+		}, final: shr},
 		{name: "clear", base: 40, run: func(t *pairTarget) { t.clear() }, isClear: true},
 		// the table is replaced twice and ends up with its old length (and a new identity)
 		// while the writer is suspended: only R's first stall points matter
@@ -133,6 +147,8 @@ func runPairStall(a *args, res *result) {
 		select {}
 	}
 	kinds := pairKinds
+	keepR := func(name string) bool { return true }
+	keepW := func(name string) bool { return true }
 	switch a.prop {
 	case "C03":
 		kinds = []string{"Map"}
@@ -140,16 +156,24 @@ func runPairStall(a *args, res *result) {
 		kinds = []string{"MapOf[int,val]", "MapOf[string,val]/mix", "MapOf[skey,val]/sameh2"}
 	case "C02", "C01":
 		kinds = []string{"Cache", "CacheOf[int,val]"}
+		if a.prop == "C01" {
+			// "an unexpired value is never dropped by internal table resizing"
+			keepR = func(name string) bool { return name != "clear" }
+			keepW = func(name string) bool { return name == "insert" || name == "update" }
+		}
 	case "C12":
 		kinds = []string{"Map", "MapOf[string,any]", "Cache", "CacheOf[string,any]"}
 	case "C05", "C11", "C13":
 		kinds = []string{"Map", "MapOf[int,val]", "Cache", "CacheOf[int,val]"}
 	}
-	keepR := func(name string) bool { return true }
-	keepW := func(name string) bool { return true }
 	if a.prop == "C05" || a.prop == "C11" || a.prop == "C12" || a.prop == "C13" {
 		// a lighter selection: the resizes that matter for "nothing lost across a retry"
-		keepR = func(name string) bool { return name != "shrink-batch" && name != "clear" }
+		keepR = func(name string) bool {
+			return name != "shrink-batch" && name != "clear" && (name != "shrink-to-empty" || a.prop == "C11")
+		}
+		if a.prop == "C11" {
+			keepR = func(name string) bool { return name != "clear" }
+		}
 		keepW = func(name string) bool { return name == "compute-insert" || name == "update" || name == "delete" }
 	}
 	unit := int64(0)
